@@ -105,4 +105,45 @@ func init() {
 	for k, v := range fm {
 		models[k] = v
 	}
+	// math functions on concrete arguments are evaluated natively; on symbolic
+	// arguments they are a model limit
+	un := map[string]func(float64) float64{"Trunc": math.Trunc, "Floor": math.Floor, "Ceil": math.Ceil, "Abs": math.Abs,
+		"Round": math.Round, "Sqrt": math.Sqrt, "Log10": math.Log10, "Log": math.Log, "Log2": math.Log2, "Exp": math.Exp, "RoundToEven": math.RoundToEven}
+	for name, f := range un {
+		f := f
+		name := name
+		models["math."+name] = func(x *Exec, fr *frame, fn *ssa.Function, a []Value) Value {
+			t := a[0].(*Term)
+			if !t.IsConst() {
+				x.unsupported("model limit: math." + name + " of a symbolic value")
+			}
+			return x.ts.FP(f(math.Float64frombits(t.C)))
+		}
+	}
+	bin := map[string]func(float64, float64) float64{"Pow": math.Pow, "Mod": math.Mod, "Max": math.Max, "Min": math.Min}
+	for name, f := range bin {
+		f := f
+		name := name
+		models["math."+name] = func(x *Exec, fr *frame, fn *ssa.Function, a []Value) Value {
+			t, u := a[0].(*Term), a[1].(*Term)
+			if !t.IsConst() || !u.IsConst() {
+				x.unsupported("model limit: math." + name + " of a symbolic value")
+			}
+			return x.ts.FP(f(math.Float64frombits(t.C), math.Float64frombits(u.C)))
+		}
+	}
+	models["math.Float64bits"] = func(x *Exec, fr *frame, fn *ssa.Function, a []Value) Value {
+		t := a[0].(*Term)
+		if !t.IsConst() {
+			x.unsupported("model limit: math.Float64bits of a symbolic value")
+		}
+		return x.ts.BV(64, t.C)
+	}
+	models["math.Float64frombits"] = func(x *Exec, fr *frame, fn *ssa.Function, a []Value) Value {
+		t := a[0].(*Term)
+		if !t.IsConst() {
+			x.unsupported("model limit: math.Float64frombits of a symbolic value")
+		}
+		return x.ts.FP(math.Float64frombits(t.C))
+	}
 }
